@@ -36,6 +36,14 @@ def load_catalog():
 
 def apply_edit(src_root, mutant):
     """Returns None if applied, or a reason string if not applicable on this tree."""
+    if mutant.get("patch"):
+        pf = os.path.join(VERIF, mutant["patch"])
+        if not os.path.exists(pf):
+            return f"patch {mutant['patch']} missing"
+        r = subprocess.run(["git", "apply", "--whitespace=nowarn", pf], cwd=os.path.dirname(src_root), capture_output=True, text=True)
+        if r.returncode != 0:
+            return "patch does not apply to this tree: " + r.stderr.strip()[:120]
+        return None
     edits = mutant.get("edits") or [(mutant["file"], mutant["old"], mutant["new"])]
     for f, old, new in edits:
         p = os.path.join(src_root, "urllib3", f)
